@@ -8,9 +8,22 @@
 use anyhow::Context;
 use anyhow::Result;
 use clap::ValueEnum;
-use unicode_categories::UnicodeCategories;
+use lazy_static::lazy_static;
+use regex::Regex;
 
 use crate::newline::BytesNewline;
+
+lazy_static! {
+    /// The general category `Other`: control, format, surrogate, private use
+    /// and unassigned code points, by the tables of the regex crate (those of
+    /// `unicode_categories` know no unassigned code points and end at Unicode 8)
+    static ref OTHER: Regex = Regex::new(r"\p{C}").expect("category expression must compile");
+}
+
+fn is_other(ch: char) -> bool {
+    let mut buffer = [0; 4];
+    OTHER.is_match(ch.encode_utf8(&mut buffer))
+}
 
 /// Provide ASCII and unicode compatible strings with all non-printable
 /// characters escaped
@@ -130,11 +143,11 @@ fn escaped_printable_unicode(bytes: &[u8]) -> String {
     let mut seq = [0; 4];
     if let Ok(s) = String::from_utf8(bytes.to_vec()) {
         // once anything is escaped, literal backslashes must be escaped themselves
-        let has_escapes = s.chars().any(|c| c.is_other());
+        let has_escapes = OTHER.is_match(&s);
         return s
             .chars()
             .map(|c| {
-                if c.is_other() {
+                if is_other(c) {
                     let raw = c.encode_utf8(&mut seq).as_bytes();
                     escaped_printable_ascii(raw)
                 } else if c == '\\' && has_escapes {
@@ -167,7 +180,7 @@ fn escaped_expectation_unicode(line: &[u8]) -> String {
 /// not printable
 fn has_unprintable_unicode(bytes: &[u8]) -> bool {
     String::from_utf8(bytes.to_vec())
-        .map(|s| s.chars().any(|c| c.is_other()))
+        .map(|s| OTHER.is_match(&s))
         .unwrap_or(true)
 }
 
